@@ -18,7 +18,7 @@ RULE = ('2-6 scanner instances per run: several instances of one reentrant (cpp 
         'reported only when it reproduces 3 of 3).  distinct = interleaving string (sequence of baton hand-overs), non-trivial = >= 2 '
         'instances each delivering >= 2 tokens with >= 3 hand-overs')
 TIERS = {
-    'quick': {'scenarios': 24, 'plans': 40, 'tsan_scenarios': 2, 'tsan_plans': 6, 'wall_cap': 600},
+    'quick': {'scenarios': 40, 'plans': 60, 'tsan_scenarios': 2, 'tsan_plans': 6, 'wall_cap': 600},
     'thorough': {'scenarios': 1600, 'plans': 120, 'tsan_scenarios': 24, 'tsan_plans': 20, 'wall_cap': 3300},
 }
 COMPONENTS = dict(sb.COMPONENTS)
